@@ -150,7 +150,7 @@ def run(out: Outcome, drv, prop):
                 f"raised; distinct by SHA-1 of the canonical logical case")
     if prop == "C08":
         calendar_check(out, drv)
-    if prop in ("C03", "C09", "C10", "C11", "C13", "C14"):
+    if prop in ("C03", "C08", "C09", "C10", "C11", "C13", "C14"):
         # the array-level model these properties' theorems go through (Model/Np -> Theorems/NpRefine, NpSrc): its numpy
         # primitives against the installed numpy, data and mask
         from props import np_prims
